@@ -76,7 +76,7 @@ class OneElecKernel:
         fr = Frame(A=A, B=B, C=C, ea=ea, eb=eb, da=da, db=db)
         out = mod._compute_one_elec_integrals(C, boys_stub(M), A, la, ea, da, B, lb, eb, db)
         fr.check(M, "one_elec", out)
-        M.true("one_elec/shape", tuple(out.shape) == (la + 1,) * 3 + (lb + 1,) * 3 + (N, Ma, Mb), str(out.shape))
+        out = M.shaped("one_elec/shape", out, (la + 1,) * 3 + (lb + 1,) * 3 + (N, Ma, Mb))
         sA, sB, sC, sea, seb, sda, sdb = map(M.to_spec, (A, B, C, ea, eb, da, db))
         SF = M.SF
         ca, cb = cart_components(la), cart_components(lb)
@@ -162,7 +162,7 @@ class PointChargeBlock:
         M.true("pc_block/pre@kernel/boys", a[1] is pc.PointChargeIntegral.boys_func or getattr(a[1], "__func__", a[1]) is getattr(bf, "__func__", bf), "the class's Boys function is handed to the kernel")
         c1 = [tuple(int(x) for x in r) for r in s1.angmom_components_cart]
         c2 = [tuple(int(x) for x in r) for r in s2.angmom_components_cart]
-        M.true("pc_block/shape", tuple(out.shape) == (shape["M"][0], len(c1), shape["M"][1], len(c2), N), str(out.shape))
+        out = M.shaped("pc_block/shape", out, (shape["M"][0], len(c1), shape["M"][1], len(c2), N))
         cube, sq = M.to_spec(seen["cube"]), M.to_spec(q)
         for m1 in range(shape["M"][0]):
             for i1, k1 in enumerate(c1):
